@@ -376,7 +376,10 @@ class Polygon(Shape2D):
         # axis theorem can be applied in the reverse direction (rotating about
         # the origin before translating to the actual centroid).
         original_center = self.center.copy()
-        original_vertices = self._vertices.copy()
+        # Work on a copy: the array object handed out through ``vertices`` must not be
+        # moved, and is put back untouched at the end.
+        original_vertices = self._vertices
+        self._vertices = original_vertices.copy()
         original_normal = self._normal.copy()
 
         self.center = (0, 0, 0)
